@@ -66,6 +66,12 @@ def one_case(rng, tier):
         case.obs("getstr %d" % t); case.obs("empty %d" % t)
     if rng.random() < 0.4:
         case.obs("accepts %d 3 %s" % (t, word(al.letters[:3])))
+    if rng.random() < 0.5:
+        # several searches on one manager (the second starts from whatever the first left behind),
+        # and the same search twice
+        t2 = gen_term(rng, case, al, rng.choice([1, 2, 3]), [t]) if rng.random() < 0.7 else sem_empty(rng, case, al)
+        case.obs("getstr %d" % t2); case.obs("getstr %d" % t); case.obs("getstr %d" % t2)
+        case.obs("empty %d" % t2); case.obs("getstr %d" % t2)
     return case.line()
 
 
